@@ -106,8 +106,11 @@ def _probe(ctx, args):
     try:
         return _keep(probe.run_probe(ctx, _exe, args, timeout=2400, env=env))
     except core.HarnessError:
-        # a sanitizer-detected error killed the process: pin it down with one child per text
-        return _keep(probe.run_probe(ctx, _exe, ["--fork-each"] + list(args), timeout=3000, env=env))
+        # a sanitizer-detected error killed the process: pin it down with one child per text; this is slow (process creation is
+        # serialised here), so it is bounded by what is left of the tier's budget
+        import time
+        left = max(120.0, getattr(ctx, "deadline", time.time() + 600) - time.time() + 300)
+        return _keep(probe.run_probe(ctx, _exe, ["--fork-each"] + list(args), timeout=min(3000, left), env=env))
 
 
 def evaluate(ctx, e):
